@@ -152,7 +152,7 @@ CHECKS.update({
             QUEUE_NOTE, "machine-checked proof (Coq 8.16) on a hand-written model + differential correspondence check",
             "DESIGN.md 8.C15"),
     "C16": ("proof",
-            "Coq theorems (Props/C16.v, 8): with a handler, the handler log is exactly the failures of the delivery log, once "
+            "Coq theorems (Props/C16.v, 9): with a handler, the handler log is exactly the failures of the delivery log, once "
             "each and in order, appended by the very event that completes the failing call (before the next metric); nothing "
             "for accepted or panicking metrics; without a handler nothing, delivery unaffected; only the worker-side finish "
             "event touches it.  Correspondence: ok/err patterns <= 5 with and without handler, payload identity and position "
